@@ -102,6 +102,10 @@ type c36Case struct {
 	Pressure    int `json:"pressure,omitempty"`
 	WindowDials int `json:"window_dials,omitempty"` // dial-in-close: dials made from inside closeListenerClients
 	HoldUs      int `json:"hold_us,omitempty"`      // ... and how long Close() is held there afterwards
+	// OtherListener: the broker has a second TCP listener without clients of its own, and the dials made from inside
+	// closeListenerClients go to it: connections that arrive through a listener that is still open while another one is
+	// being closed (Server.Close has begun)
+	OtherListener bool `json:"other_listener,omitempty"`
 }
 
 // ---- handler tracker (verif schedule hook) ----------------------------------------------------------------
@@ -294,6 +298,7 @@ type cli struct {
 	idx  int
 	spec c36Client
 	run  *c36Run
+	addr string // "" = the case's main listener
 
 	mu         sync.Mutex
 	conn       net.Conn
@@ -479,7 +484,7 @@ func (c *cli) script() {
 	if !c.sleepOrStop(time.Duration(c.spec.StartUs) * time.Microsecond) {
 		return
 	}
-	conn, err := net.DialTimeout("tcp", c.run.addr, 3*time.Second)
+	conn, err := net.DialTimeout("tcp", c.addrOf(), 3*time.Second)
 	if err != nil {
 		c.mu.Lock()
 		c.dialErr = err
@@ -601,6 +606,7 @@ type c36Run struct {
 	c         c36Case
 	lid       string
 	addr      string
+	addr2     string // second listener (OtherListener cases)
 	port      int
 	srv       *mqtt.Server
 	tr        *tracker
@@ -615,6 +621,14 @@ type c36Run struct {
 }
 
 var c36Seq atomic.Int64
+
+// addrOf: the listener address a harness client dials (the case's main listener unless it was given another one).
+func (c *cli) addrOf() string {
+	if c.addr != "" {
+		return c.addr
+	}
+	return c.run.addr
+}
 
 func newCli(run *c36Run, idx int, spec c36Client) *cli {
 	c := &cli{idx: idx, spec: spec, run: run, notify: make(chan struct{}, 1), endedCh: make(chan struct{})}
@@ -968,6 +982,9 @@ func c36Check(c c36Case, r *evid.Rec) (discs []evid.Disc) {
 			run.cmu.Lock()
 			for i := 0; i < c.WindowDials; i++ {
 				w := newCli(run, len(run.clis), c36Client{Stage: "window", Ver: 4})
+				if c.OtherListener {
+					w.addr = run.addr2
+				}
 				run.clis = append(run.clis, w)
 				ws = append(ws, w)
 			}
@@ -999,6 +1016,15 @@ func c36Check(c c36Case, r *evid.Rec) (discs []evid.Disc) {
 		}
 	}
 	run.addr = l.Address()
+	if c.OtherListener {
+		host, _, _ := net.SplitHostPort(run.addr)
+		l2 := listeners.NewTCP(listeners.Config{ID: lid + "-other-listener", Address: host + ":0"})
+		if err := run.srv.AddListener(l2); err == nil {
+			run.addr2 = l2.Address()
+		} else {
+			run.addr2 = run.addr
+		}
+	}
 	if _, p, err := net.SplitHostPort(run.addr); err == nil {
 		run.port, _ = strconv.Atoi(p)
 	}
@@ -1368,7 +1394,7 @@ func c36Check(c c36Case, r *evid.Rec) (discs []evid.Disc) {
 				// for a connection that was still in the listening socket's queue when that socket was closed (its peer
 				// then exists nowhere; the client notices only when it sends), or that another process accepted after the
 				// port was handed out again. It is the broker's doing only if this process holds the other end.
-				st, held, decided := serverSideSocket(run.addr, local)
+				st, held, decided := serverSideSocket(cl.addrOf(), local)
 				probe := "not probed"
 				if decided && held {
 					_, werr := cl.conn.Write([]byte{0xC0})
@@ -1382,9 +1408,9 @@ func c36Check(c c36Case, r *evid.Rec) (discs []evid.Disc) {
 						}
 					}
 					if werr == nil && kernelState(cl.conn) == "open" {
-						if st2, held2, decided2 := serverSideSocket(run.addr, local); decided2 && held2 {
+						if st2, held2, decided2 := serverSideSocket(cl.addrOf(), local); decided2 && held2 {
 							discs = append(discs, evid.D(sigOpenUnserved, "client %d (%s v%d, %s) is still open after Close() returned (waited %v, or until the broker was provably quiescent) and no handler ever ran for it, although the listener accepted the connection: this process holds the broker's end of it (socket %s -> %s, state %s), a byte written by the client was taken without RST/FIN: accepted, neither served nor closed",
-								cl.idx, cl.spec.Stage, cl.spec.Ver, local, c36Grace, run.addr, local, st2))
+								cl.idx, cl.spec.Stage, cl.spec.Ver, local, c36Grace, cl.addrOf(), local, st2))
 							break
 						}
 					}
@@ -1676,6 +1702,7 @@ func c36Gen(r *evid.Rec) func(t *rapid.T) c36Case {
 			c.CloseAfter = n
 			c.WindowDials = rapid.IntRange(1, 4).Draw(t, "window_dials")
 			c.HoldUs = rapid.SampledFrom([]int{2000, 8000, 20000}).Draw(t, "hold_us")
+			c.OtherListener = rapid.Bool().Draw(t, "other_listener")
 		}
 		return c
 	}
@@ -1700,7 +1727,7 @@ func TestC36(t *testing.T) {
 	r := evid.New("C36", "one real broker per case (mqtt.New, allow-all auth, listeners.TCP on a loopback address of its own, Serve) with 4-40 loopback TCP clients driven to generated stages "+
 		"(dialled only, CONNECT half sent, established v3.1.1/v5, subscribed, PUBLISH half sent, publishing back to back, already gone) and Server.Close() called after a generated number of them "+
 		"reached their stage, so the rest are dialling / connecting while Close() runs; directed classes hold a handler at the verif points attach.start (before ClientsWg.Add) or "+
-		"attach.afterLimitCheck (before Clients.Add) while Close() runs, dial from inside closeListenerClients, or write the client registry (Clients.Add/Delete) at a high rate while Close() reads it. Oracle once Close() has returned: every client socket reads EOF/reset within 2 s "+
+		"attach.afterLimitCheck (before Clients.Add) while Close() runs, dial from inside closeListenerClients (the listener being closed, or a second listener of the same broker that is still open), or write the client registry (Clients.Add/Delete) at a high rate while Close() reads it. Oracle once Close() has returned: every client socket reads EOF/reset within 2 s "+
 		"(GC off, so finalizers cannot close anything), v5 clients whose CONNACK arrived before the call saw DISCONNECT 0x8B, a new dial is refused, and no handler (attach.start seen, attach.end not yet) "+
 		"was alive at the moment of return or started later. Close() not returning is a violation only with two identical goroutine dumps showing Close in WaitGroup.Wait and every handler in a network read "+
 		"on an open, silent harness connection, or the read-lock cycle Close -> Clients.GetByListener -> Clients.Len behind a waiting Clients.Add/Delete; otherwise inconclusive after 15 s. RULE: a case is non-trivial when at least one accepted connection was open when Close() was called; the key is class + the multiset of "+
